@@ -134,5 +134,11 @@ func validateIncludeFileName(s string) error {
 		return errors.New(jerr.IncludeSeparatorErr)
 	}
 
+	for _, segment := range strings.Split(s, "/") {
+		if segment == "." || segment == ".." { // e.g. the whole name is "." or ".."
+			return errors.New(jerr.IncludeUpErr)
+		}
+	}
+
 	return nil
 }
